@@ -321,6 +321,45 @@ func corpus() []corpusApp {
 		a.WithInputs("1", "0", "2")
 		return a
 	}, []engine.Config{{}})
+	// two paginated nodes whose browse entries differ in length, the one with the shorter labels first
+	add("twolists", func() *app.App {
+		a := app.New("twolists")
+		a.Node("root", "lists", codec.Ins{Op: codec.MOUT, Sym: "a", Sel: "1"}, codec.Ins{Op: codec.MOUT, Sym: "b", Sel: "2"}, codec.Ins{Op: codec.HALT},
+			codec.Ins{Op: codec.INCMP, Sym: "la", Sel: "1"}, codec.Ins{Op: codec.INCMP, Sym: "lb", Sel: "2"})
+		list := func(name, nx, pv string) {
+			a.Node(name, name+"\n{{.rows}}", codec.Ins{Op: codec.LOAD, Sym: "rows", N: 0}, codec.Ins{Op: codec.MAP, Sym: "rows"}, codec.Ins{Op: codec.MOUT, Sym: "back", Sel: "0"},
+				codec.Ins{Op: codec.MNEXT, Sym: nx, Sel: "11"}, codec.Ins{Op: codec.MPREV, Sym: pv, Sel: "22"}, codec.Ins{Op: codec.HALT},
+				codec.Ins{Op: codec.INCMP, Sym: "_", Sel: "0"}, codec.Ins{Op: codec.INCMP, Sym: ">", Sel: "11"}, codec.Ins{Op: codec.INCMP, Sym: "<", Sel: "22"})
+		}
+		list("la", "nx", "pv")
+		list("lb", "next page", "previous page")
+		a.Node("_catch", "catch", codec.Ins{Op: codec.HALT}, codec.Ins{Op: codec.INCMP, Sym: "_", Sel: "*"})
+		var rows []string
+		for i := 0; i < 12; i++ {
+			rows = append(rows, fmt.Sprintf("row%02d...", i))
+		}
+		a.Func("rows", constFunc(strings.Join(rows, "\n")))
+		a.WithInputs("1", "2", "0", "11", "22")
+		return a
+	}, []engine.Config{{OutputSize: 60}, {OutputSize: 70}})
+	// an external function that fails once (the catch page is shown), and later an instruction that is not a
+	// load fails: where that second failure goes must not depend on how the engine is kept
+	add("loadfail-then-error", func() *app.App {
+		a := app.New("loadfail")
+		a.Node("root", "top", codec.Ins{Op: codec.MOUT, Sym: "a", Sel: "1"}, codec.Ins{Op: codec.MOUT, Sym: "b", Sel: "2"}, codec.Ins{Op: codec.HALT},
+			codec.Ins{Op: codec.INCMP, Sym: "bad", Sel: "1"}, codec.Ins{Op: codec.INCMP, Sym: "errn", Sel: "2"})
+		a.Node("bad", "bad {{.bv}}", codec.Ins{Op: codec.LOAD, Sym: "bv", N: 8}, codec.Ins{Op: codec.MAP, Sym: "bv"}, codec.Ins{Op: codec.HALT}, codec.Ins{Op: codec.INCMP, Sym: "_", Sel: "0"})
+		a.Node("errn", "errn", codec.Ins{Op: codec.MAP, Sym: "nosuch"}, codec.Ins{Op: codec.HALT}, codec.Ins{Op: codec.INCMP, Sym: "_", Sel: "0"})
+		a.Node("_catch", "catch", codec.Ins{Op: codec.HALT}, codec.Ins{Op: codec.INCMP, Sym: "_", Sel: "*"})
+		a.Func("bv", func(e *app.Env, sym string, in []byte, l string) (resource.Result, error) {
+			if e.Counts[sym] <= 1 {
+				return resource.Result{}, fmt.Errorf("backend hiccup")
+			}
+			return resource.Result{Content: "fine"}, nil
+		})
+		a.WithInputs("1", "2", "0")
+		return a
+	}, []engine.Config{{}})
 	add("echo", echoApp, []engine.Config{{}, {OutputSize: 20}, {CacheSize: 14}, {ResetOnEmptyInput: true}})
 	add("trailnl", func() *app.App {
 		// values that end in a newline: the last loaded value is the last thing in the stored record
